@@ -161,6 +161,34 @@ def build(tier="quick", seed=0):
                                 mode="exhaustive matrix codec x container x {path with extension, neutral path, file object, standard input, standard input via an adapter URL}; symbolic record values"))
     pack.case_analyses.append("matrix: codecs none / gzip / bz2 / lz4 / zstd (.zstd and .zst) x containers record stream / Avro x four ways of naming the source")
 
+    # ------------------------------------------------------------------ several compressed streams in progress at the same time do not disturb each other
+    def th_concurrent(codec, ext):
+        def th():
+            fresh()
+            D = it.call(RD, ["c11/rec", [("varint", "n"), ("string", "s")]], {})
+            ws = [it.call(base.g["RecordWriter"], [f"/abs/c{i}.records{ext}"], {}) for i in range(2)]
+            for k in range(3):
+                for i, w in enumerate(ws):  # interleaved writes
+                    it.call(it.getattr_(w, "write"), [it.call(D, [], {"n": 10 * i + k, "s": "v"})], {})
+            for w in ws:
+                it.call(it.getattr_(w, "flush"), [], {})
+                it.call(it.getattr_(w, "close"), [], {})
+            rds = [it.call(base.g["RecordReader"], [f"/abs/c{i}.records{ext}"], {}) for i in range(2)]  # two readers open side by side
+            its = [iter(it.iterate(r)) for r in rds]
+            got = [[], []]
+            for k in range(3):
+                for i in range(2):
+                    got[i].append(it.unbase(next(its[i]).attrs["n"]))
+            return got, [e for e in it.vfs_events if e[0].endswith("context-shared")]
+        return th
+
+    for codec, ext in CODECS.items():
+        if codec == "none":
+            continue
+        name = f"C11.concurrent[{codec}: two writers, then two readers, side by side]"
+        pack.add(Obligation(name, lambda tier, name=name, codec=codec, ext=ext: prove_paths(name, th_concurrent(codec, ext), lambda p: (p.value == ([[0, 1, 2], [10, 11, 12]], []), f"two {codec} streams in progress at once: read back {p.value[0]}, shared codec state: {p.value[1]}"), lambda m_, p: {}, allow_raise=None),
+                            replay=lambda w, codec=codec, ext=ext: {"call": "c11_concurrent", "args": {"ext": ext}}, functions=FU, mode="two streams of one codec open at the same time, interleaved"))
+
     # ------------------------------------------------------------------ adapter table for paths
     def th_adapter_table():
         out = {}
